@@ -40,9 +40,13 @@ class IDGenerator:
         self._id = 0
 
     def ensure_id(self, fn_t):
+        # ids may already have been assigned by an earlier code generation of
+        # the same module (e.g. the venom runtime, or the legacy pipeline
+        # which `-f metadata` always runs). step past them, so that the
+        # numbering does not depend on which output was produced first.
         if fn_t._function_id is None:
             fn_t._function_id = self._id
-            self._id += 1
+        self._id = max(self._id, fn_t._function_id + 1)
 
 
 def _is_constructor(func_ast):
